@@ -415,12 +415,12 @@ func (P) Generate(g *core.Gen) {
 		}
 	}
 	// 2. random scripts, every configuration.
-	for i, n := 0, g.N(2500, 60000); i < n; i++ {
+	for i, n := 0, g.N(2000, 60000); i < n; i++ {
 		class, nt, line := randHS(r)
 		g.Case(class, nt, line)
 	}
 	// 2b. 8..12 independent peers at once, each compared with its own answer.
-	for i, n := 0, g.N(40, 600); i < n; i++ {
+	for i, n := 0, g.N(30, 600); i < n; i++ {
 		k := 8 + r.Intn(5)
 		subs := make([]string, k)
 		for j := range subs {
@@ -446,7 +446,7 @@ func (P) Generate(g *core.Gen) {
 		}
 		return strings.Join(ts, ",")
 	}
-	for i, n := 0, g.N(300, 6000); i < n; i++ {
+	for i, n := 0, g.N(240, 6000); i < n; i++ {
 		_, _, line := randHS(r)
 		f := strings.Fields(line)
 		_, _, line2 := randHS(r)
@@ -493,7 +493,7 @@ func (P) Generate(g *core.Gen) {
 		g.Case("inv-trickle", true, fmt.Sprintf("C18 inv %d %d %d %d", nn, k, d, r.Intn(5)))
 	}
 	// 2e. Push* entry points of a ready peer.
-	for i, n := 0, g.N(120, 3000); i < n; i++ {
+	for i, n := 0, g.N(100, 3000); i < n; i++ {
 		vs := []int64{60001, 70001, 70002, 70015, 70016}
 		ours, theirs := vs[r.Intn(len(vs))], vs[r.Intn(len(vs))]
 		if r.Bool() {
@@ -530,7 +530,7 @@ func (P) Generate(g *core.Gen) {
 		}
 	}
 	// 4. pipeline scenarios: run on the real peer now; the observed trace goes on the line.
-	for i, n := 0, g.N(300, 10000); i < n; i++ {
+	for i, n := 0, g.N(250, 10000); i < n; i++ {
 		c := pipeCfg{nProd: 1 + r.Intn(8), nMsg: 1 + r.Intn(12), seed: r.U64(), invCallers: r.Intn(3)}
 		switch x := r.Intn(20); {
 		case x < 9:
